@@ -60,6 +60,10 @@ type Spec struct {
 	// prefix, being set, is in force: ids carry no prefix), and Typographer with empty (non-nil) replacements, which
 	// means "replace by nothing".
 	Rich4 bool
+	// HeadingRoute (with AutoHeadingID / Attribute): the heading options are given to the heading parsers' constructors
+	// (parser.NewATXHeadingParser(parser.WithAutoHeadingID()) ... in a caller-built parser.NewParser) instead of to the parser
+	// as a whole (core only).
+	HeadingRoute bool
 	// Direct: renderer flags are given to html.NewRenderer(...) itself, inside a caller-built renderer.NewRenderer, instead
 	// of goldmark.WithRendererOptions (core only: extension renderers receive options by name, not through this route).
 	Direct bool
@@ -74,6 +78,8 @@ const (
 	SFootnote       = "footnote"
 	SDefList        = "deflist"
 	STypographer    = "typographer"
+	// STypographerUTF8: Typographer whose replacements are the characters themselves (UTF-8) instead of character references
+	STypographerUTF8 = "typographer-utf8"
 	SCJKSimple      = "cjk-simple"
 	SCJKCSS3        = "cjk-css3"
 	SCJKEsc         = "cjk-escspace"
@@ -134,6 +140,9 @@ func (s Spec) Name() string {
 	if s.Rich4 {
 		b.WriteString(",rich4")
 	}
+	if s.HeadingRoute {
+		b.WriteString(",headingroute")
+	}
 	if s.Direct {
 		b.WriteString(",direct")
 	}
@@ -172,7 +181,7 @@ func (s Spec) FootnoteIDPrefix() string {
 
 func (s Spec) footnote() goldmark.Extender {
 	if s.Rich && s.Rich4 {
-		return extension.NewFootnote(extension.WithFootnoteIDPrefix(""), extension.WithFootnoteIDPrefixFunction(func(ast.Node) []byte { return []byte("post42-") }),
+		return extension.NewFootnote(extension.WithFootnoteIDPrefix(make([]byte, 0, 128)), extension.WithFootnoteIDPrefixFunction(func(ast.Node) []byte { return []byte("post42-") }),
 			extension.WithFootnoteLinkTitle("note ^^"), extension.WithFootnoteBacklinkClass("fn-back"))
 	}
 	if s.Rich && s.Rich3 {
@@ -215,6 +224,13 @@ func (s Spec) linkify() goldmark.Extender {
 }
 
 func (s Spec) typographer() goldmark.Extender {
+	if s.Rich && s.Rich4 {
+		// an empty (non-nil) replacement means "replace by nothing": the punctuation disappears, nothing of the source is written
+		return extension.NewTypographer(extension.WithTypographicSubstitutions(map[extension.TypographicPunctuation][]byte{
+			extension.LeftAngleQuote: {}, extension.RightAngleQuote: {}, extension.LeftDoubleQuote: {}, extension.RightDoubleQuote: {},
+			extension.LeftSingleQuote: {}, extension.RightSingleQuote: {}, extension.Apostrophe: {}, extension.Ellipsis: {}, extension.EnDash: {}, extension.EmDash: {},
+		}))
+	}
 	if s.Rich && s.Rich2 {
 		// nil disables a substitution: the source characters must then come out as ordinary (escaped) text
 		return extension.NewTypographer(extension.WithTypographicSubstitutions(map[extension.TypographicPunctuation][]byte{
@@ -246,6 +262,11 @@ func (s Spec) single(name string) goldmark.Extender {
 		return extension.DefinitionList
 	case STypographer:
 		return s.typographer()
+	case STypographerUTF8:
+		return extension.NewTypographer(extension.WithTypographicSubstitutions(map[extension.TypographicPunctuation]string{
+			extension.LeftSingleQuote: "‘", extension.RightSingleQuote: "’", extension.LeftDoubleQuote: "“", extension.RightDoubleQuote: "”", extension.EnDash: "–", extension.EmDash: "—",
+			extension.Ellipsis: "…", extension.LeftAngleQuote: "«", extension.RightAngleQuote: "»", extension.Apostrophe: "’",
+		}))
 	case SCJKSimple:
 		return s.cjk(extension.EastAsianLineBreaksSimple, true)
 	case SCJKSimpleNoEsc:
@@ -326,7 +347,8 @@ func (s Spec) RendererOptions() []goldmark.Option {
 		out = append(out, goldmark.WithRendererOptions(html.WithHardWraps()))
 	}
 	if s.Rich && s.Rich3 {
-		out = append(out, goldmark.WithRendererOptions(extension.WithFootnoteIDPrefix("page7-"),
+		// (byte slices with spare capacity, as a caller has who builds the prefix by appending)
+		out = append(out, goldmark.WithRendererOptions(extension.WithFootnoteIDPrefix(append(make([]byte, 0, 128), "page7-"...)),
 			extension.WithFootnoteIDPrefixFunction(func(ast.Node) []byte { return []byte("fn-of-the-function-") })))
 		if !s.PinTableAlign {
 			out = append(out, goldmark.WithRendererOptions(extension.WithTableCellAlignMethod(extension.TableCellAlignStyle)))
@@ -337,6 +359,26 @@ func (s Spec) RendererOptions() []goldmark.Option {
 
 // Build creates a fresh goldmark instance.
 func (s Spec) Build() goldmark.Markdown {
+	if s.HeadingRoute {
+		var ho []parser.HeadingOption
+		if s.AutoHeadingID {
+			ho = append(ho, parser.WithAutoHeadingID())
+		}
+		if s.Attribute {
+			ho = append(ho, parser.WithHeadingAttribute())
+		}
+		bps := parser.DefaultBlockParsers()
+		for i, bp := range bps {
+			switch bp.Priority {
+			case 100:
+				bps[i] = util.Prioritized(parser.NewSetextHeadingParser(ho...), 100)
+			case 600:
+				bps[i] = util.Prioritized(parser.NewATXHeadingParser(ho...), 600)
+			}
+		}
+		p := parser.NewParser(parser.WithBlockParsers(bps...), parser.WithInlineParsers(parser.DefaultInlineParsers()...), parser.WithParagraphTransformers(parser.DefaultParagraphTransformers()...))
+		return goldmark.New(append([]goldmark.Option{goldmark.WithParser(p)}, s.RendererOptions()...)...)
+	}
 	if s.Direct {
 		var ho []html.Option
 		if s.Unsafe {
@@ -385,7 +427,7 @@ func (s Spec) HasExt(name string) bool {
 	case ExtFootnote:
 		return name == SFootnote
 	case ExtTypographer:
-		return name == STypographer
+		return name == STypographer || name == STypographerUTF8
 	case ExtCJKSimple:
 		return name == SCJKSimple
 	case ExtCJKCSS3:
@@ -528,6 +570,8 @@ func Parse(name string) (Spec, bool) {
 			s.Rich3 = true
 		case p == "rich4":
 			s.Rich4 = true
+		case p == "headingroute":
+			s.HeadingRoute = true
 		case p == "direct":
 			s.Direct = true
 		default:
